@@ -1229,7 +1229,7 @@ class Trend(Function):
         self.input_function = model.converter(self.id + "input_function")
         self.input_function.equation = input_function
         self.exponential_average.initial_value = initial_value
-        self.change_in_average = model.flow(self.id + "change_in_average")
+        self.change_in_average = model.biflow(self.id + "change_in_average")
         self.change_in_average.equation = (
             self.input_function - self.exponential_average) / self.averaging_time
         self.exponential_average.equation = self.change_in_average
@@ -1254,7 +1254,7 @@ class Smooth(Function):
         self.input_function = model.converter(self.id + "input_function")
         self.input_function.equation = input_function
         self.smooth.initial_value = initial_value
-        self.change_in_smooth = model.flow(self.id + "change_in_smooth")
+        self.change_in_smooth = model.biflow(self.id + "change_in_smooth")
         self.change_in_smooth.equation = (
             self.input_function - self.smooth) / self.averaging_time
         self.smooth.equation = self.change_in_smooth
